@@ -8,7 +8,7 @@ rows, summ = [], {"total": 0, "target_cex": 0, "target_nfif": 0, "other_only": 0
 missed, nfif_only, other_only = [], [], []
 for sid in sorted(os.listdir(os.path.join(ROOT, "seeded"))):
     d = os.path.join(ROOT, "seeded", sid)
-    if not os.path.isdir(d):
+    if not os.path.isdir(d) or not os.path.exists(os.path.join(d, "meta.json")):
         continue
     meta = json.load(open(os.path.join(d, "meta.json")))
     e = res.get(sid)
